@@ -161,7 +161,7 @@ fn htc_case(rng: &mut Rng, id: u32, wrapping: bool, buf: &mut Buf) {
     // oracle table: templated_slice_to_source_slice on every range fix_slices can ask for
     let mut ranges: Vec<(usize, usize)> = vec![];
     if with_marker {
-        ranges = vec![(ta.saturating_sub(1), ta + 1), (ta.saturating_sub(1), ta), (tb.wrapping_sub(1), tb + 1), (tb, tb + 1), (ta, tb)];
+        ranges = vec![(ta.saturating_sub(1), ta + 1), (ta.saturating_sub(1), ta), (tb.saturating_sub(1), tb + 1), (tb.wrapping_sub(1), tb + 1), (tb, tb + 1), (ta, tb)];
         ranges.sort();
         ranges.dedup();
     }
